@@ -139,4 +139,31 @@ Named(E, f) == EHas(E, f.name) /\ EGet(E, f.name).src = "cli"
 UpdateField(desc, old, E, f) == IF Named(E, f) THEN ExtractField(desc, E, f, "") ELSE old
 UpdateTop(desc, oldTop, E) ==
   LET fs == desc.fields \o desc.flatten.fields IN [i \in 1..Len(fs) |-> UpdateField(desc, oldTop[i], E, fs[i])]
+\* ---- the update rule below a subcommand field ----------------------------------------------------------------
+\* (derives/subcommand.rs gen_update_from_arg_matches) the update line names no subcommand: nothing below changes; it names
+\* the variant the value already holds: that variant's fields follow the field rule; it names another variant: the value
+\* is replaced by that variant parsed from the update's matches, which needs every required field of it (else the update
+\* fails, and what it had already written to earlier fields is not prescribed).  Returns [ok, v].
+ReqFieldsPresent(E, fs) == \A i \in 1..Len(fs) : fs[i].shape \in {"req", "enum"} => EHas(E, fs[i].name)
+VariantByName(vs, n) == vs[CHOOSE i \in 1..Len(vs) : vs[i].name = n]
+UpdateValue(desc, value, obsU) ==     \* obsU.outcome = "Ok"
+  LET E1 == obsU.chain[1]
+      v1 == [value EXCEPT !.top = UpdateTop(desc, value.top, E1)]
+  IN IF ~desc.subs.present \/ ~E1.has_sub THEN [ok |-> TRUE, v |-> v1]
+     ELSE LET va == VariantByName(desc.subs.variants, E1.sub) E2 == obsU.chain[2] IN
+          IF va.nested = <<>>
+          THEN IF value.cmd = va.name
+               THEN [ok |-> TRUE, v |-> [v1 EXCEPT !.sub = [i \in 1..Len(va.fields) |-> UpdateField(desc, value.sub[i], E2, va.fields[i])]]]
+               ELSE IF ReqFieldsPresent(E2, va.fields)
+               THEN [ok |-> TRUE, v |-> [v1 EXCEPT !.cmd = va.name, !.sub = ExtractFields(desc, E2, va.fields), !.cmd2 = <<>>, !.sub2 = <<>>]]
+               ELSE [ok |-> FALSE, v |-> value]
+          ELSE \* a `#[command(subcommand)] V(Inner)` variant: one level further down
+               IF ~E2.has_sub
+               THEN (IF value.cmd = va.name THEN [ok |-> TRUE, v |-> v1] ELSE [ok |-> FALSE, v |-> value])
+               ELSE LET nv == VariantByName(va.nested, E2.sub) E3 == obsU.chain[3] IN
+                    IF value.cmd = va.name /\ value.cmd2 = nv.name
+                    THEN [ok |-> TRUE, v |-> [v1 EXCEPT !.sub2 = [i \in 1..Len(nv.fields) |-> UpdateField(desc, value.sub2[i], E3, nv.fields[i])]]]
+                    ELSE IF ReqFieldsPresent(E3, nv.fields)
+                    THEN [ok |-> TRUE, v |-> [v1 EXCEPT !.cmd = va.name, !.sub = <<>>, !.cmd2 = nv.name, !.sub2 = ExtractFields(desc, E3, nv.fields)]]
+                    ELSE [ok |-> FALSE, v |-> value]
 =============================================================================
